@@ -17,16 +17,32 @@ patch = "%s/%s/patch.diff" % (D, m)
 res = {"id": pid, "m": m}
 def sh(cmd, **kw):
     return subprocess.run(cmd, shell=True, capture_output=True, text=True, **kw)
+def demo_cmd(path):
+    """first command block of the free-form demo.txt: non-comment lines up to the first blank line,
+    without trailing `; echo ...` (so the exit status is the demo's) and without git apply/checkout"""
+    block = []
+    for l in open(path).read().splitlines():
+        if not l.strip():
+            if block:
+                break
+            continue
+        if l.lstrip().startswith("#") or l.lstrip().startswith("git "):
+            continue
+        block.append(l)
+    cmd = "\n".join(block)
+    import re as _re
+    cmd = _re.sub(r";\s*echo\s+[^\n;&|]*\$\?[^\n]*$", "", cmd)
+    return cmd
 os.makedirs("/tmp/seedres", exist_ok=True)
 try:
     sh("git -C %s checkout -q -- ." % WT)
-    r = sh("cd %s/%s && sh ./demo.txt" % (D, m), timeout=1800)
+    r = sh("cd %s/%s && %s" % (D, m, demo_cmd("%s/%s/demo.txt" % (D, m))), timeout=1800)
     res["demo_pristine_rc"] = r.returncode
     a = sh("git -C %s apply %s" % (WT, patch))
     if a.returncode != 0:
         res["error"] = "patch does not apply to author's worktree: " + a.stderr[-300:]
     else:
-        r = sh("cd %s/%s && sh ./demo.txt" % (D, m), timeout=1800)
+        r = sh("cd %s/%s && %s" % (D, m, demo_cmd("%s/%s/demo.txt" % (D, m))), timeout=1800)
         res["demo_patched_rc"] = r.returncode
         res["demo_patched_tail"] = (r.stdout + r.stderr)[-400:]
     sh("git -C %s checkout -q -- ." % WT)
